@@ -21,6 +21,9 @@ class _FakePCB:
     def stop(self):
         self.started = False
 
+    def is_running(self):
+        return self.started
+
 
 class _Time:
     def __init__(self):
